@@ -6,7 +6,7 @@ length-delimited) and the schema of descriptor.proto restricted to the parts `Re
 records.  Independent of `Model/ReflectionWire` (which writes) and of `Model/Reflection`.
 Semantics as the protobuf language guide prescribes: unknown fields are skipped, the last
 occurrence of an optional scalar wins, repeated fields keep their order.
-Only length-delimited fields occur in skeleton descriptors; other wire types make `parse` fail.
+Only length-delimited fields are read by this schema; scalar fields are skipped, groups rejected.
 -/
 namespace Spec.ReflWire
 open Refl
@@ -19,8 +19,10 @@ def readVarint : Bytes → Option (Nat × Bytes)
       | some (v, r) => some (b.toNat - 128 + 128 * v, r)
       | none => none
 
-/-- One length-delimited field: (field number, payload) and the remaining bytes. -/
-def readField (bs : Bytes) : Option ((Nat × Bytes) × Bytes) :=
+/-- One field: `some (field number, payload)` for a length-delimited one, `none` for a scalar
+(varint, fixed64, fixed32 — none is read by this schema, so it is skipped like an unknown
+field), and the remaining bytes.  Groups (wire types 3, 4) and invalid types are rejected. -/
+def readField (bs : Bytes) : Option (Option (Nat × Bytes) × Bytes) :=
   match readVarint bs with
   | none => none
   | some (tag, r) =>
@@ -28,10 +30,13 @@ def readField (bs : Bytes) : Option ((Nat × Bytes) × Bytes) :=
       match readVarint r with
       | none => none
       | some (len, r2) =>
-        if len ≤ r2.length then some ((tag / 8, r2.take len), r2.drop len) else none
+        if len ≤ r2.length then some (some (tag / 8, r2.take len), r2.drop len) else none
+    else if tag % 8 = 0 then (readVarint r).map (fun x => (none, x.2))
+    else if tag % 8 = 1 then (if 8 ≤ r.length then some (none, r.drop 8) else none)
+    else if tag % 8 = 5 then (if 4 ≤ r.length then some (none, r.drop 4) else none)
     else none
 
-/-- All fields of a message body (`fuel` bounds the number of fields). -/
+/-- All length-delimited fields of a message body (`fuel` bounds the number of fields). -/
 def parseFields : Nat → Bytes → Option (List (Nat × Bytes))
   | _, [] => some []
   | 0, _ :: _ => none
@@ -41,7 +46,7 @@ def parseFields : Nat → Bytes → Option (List (Nat × Bytes))
     | some (x, rest) =>
       match parseFields fuel rest with
       | none => none
-      | some xs => some (x :: xs)
+      | some xs => some (match x with | some f => f :: xs | none => xs)
 
 def parse (bs : Bytes) : Option (List (Nat × Bytes)) := parseFields bs.length bs
 
